@@ -161,6 +161,8 @@ def gen_bytes(r, res=None, key=False):
             out += bytes([r.choice(b"\"\\/\b\f\n\r\t")])
         elif k < 0.75:
             out += bytes([r.randrange(1 if key else 0, 32)])
+        elif k < 0.77:
+            out += chr(r.choice([0x7f, 0x80, 0x7ff, 0x800, 0xd7ff, 0xe000, 0xffff, 0x10000, 0x103ff, 0x10fc00, 0x10ffff])).encode()
         elif k < 0.80:
             out += chr(r.randrange(0x80, 0x800)).encode()
         elif k < 0.85:
@@ -442,7 +444,9 @@ QUIRKS = [b'{"a":1}', b"-", b"-x", b"[-]", b"0x", b"0x1", b"[0x]", b"01", b"0e1"
           b'"\\u0000abc"', b'{"\\u0000":1}', b'{"a\\u0000b":1}', b'"a\x01"', b'"\xff\xfe"', b"", b" ", b"\n",
           b"\xef\xbb\xbf{}", b"[1,2", b"[1 2]", b"tru", b"true", b"nul", b"null", b"falsehood", b"nullx", b"truex",
           b'"\\ud800"', b'"\\udc00"', b'"\\ud800\\u0041"', b'"\\ud83d\\ude00"', b'"\\ud83d\\ude0"', b'"\\ud83d\\u"',
-          b'"\\uD83D\\uDE00"', b'"\\ud83d\\\\ude00"', b'"\\ud83dx\\ude00"', b'"\\x"', b'"\\', b'"\\"', b'"\\u12"',
+          b'"\\uD83D\\uDE00"', b'"\\ud800\\udc00"', b'"\\udbff\\udfff"', b'"\\ud800\\udfff"', b'"\\udbff\\udc00"',
+          b'"\\ud800\\udbff"', b'"\\ud800\\ue000"', b'"\\ud7ff"', b'"\\ue000"', b'"\\uffff"', b'"\\u007f"', b'"\\u0080"',
+          b'"\\u07ff"', b'"\\u0800"', b'"\\u0000"', b'"\\u001f"', b'"\\u0020"', b'"\\uDBFF\\uDFFF"', b'"\\udc00\\ud800"', b'"\\ud83d\\\\ude00"', b'"\\ud83dx\\ude00"', b'"\\x"', b'"\\', b'"\\"', b'"\\u12"',
           b'"\\u12G4"', b'"\\u 123"', b'"\\u+123"', b'{"a" 1}', b"{1:2}", b'\\"', b"\\/* */ 1", b'"a\\\\" /* c */',
           b'1 /* "*/ ', b"[1,/*]*/2]", b"/*/ 1", b"/**/1", b"/* */ /* */ 2", b"// a\n// b\n3", b"//\n4", b"/ 1", b"/",
           b'"//"', b'"\\"//"', b'"\\\\"//c\n', b'["a\\"/*",1]', b'"/*" /* */', b"/* // */ 5", b"// /* \n 6 /* */",
@@ -565,10 +569,18 @@ def run_json_correspondence(res, prep, tier, rng, replay_lines=None):
         op = l.split(" ", 1)[0]
         if op in ("parse", "parsef"):
             res.dist("json-parson:" + ("fail" if a == "parse fail" else "ok" if a.startswith("parse ") else "crash"))
-        unsup = b in ("parse unsup", "get unsup")
+        unsup = b.startswith("parse unsup") or b == "get unsup"
         if unsup:
             nuns += 1
             res.dist("json-model:unsup")
+            # the grammar decision and everything but the unknown number values still have to agree; parson may
+            # also refuse the document (ERANGE overflow of such a number)
+            if b.startswith("parse unsup ") and a != "parse fail" and not a.startswith("crash"):
+                pat = re.escape(b[len("parse unsup "):]).replace(re.escape("#?"), r"#-?[0-9]+(/[0-9]+)?")
+                if not re.fullmatch(pat, a[len("parse "):]):
+                    findings.append({"kind": "disagree", "key": "json-corr-shape:" + cls,
+                                     "text": f"parson says '{a[:300]}', the Lean model (number values aside) '{b[:300]}' ({cls}: {decode_line(l)})",
+                                     "replay": "jsonline " + l + f"\n# impl:  {a}\n# model: {b}"})
         if a.startswith("crash"):
             continue
         if not unsup and a != b:
@@ -610,7 +622,7 @@ def build_lines(r, quick, add, h, findings, res):
         add("parse " + hx(doc), name.rsplit("-", 1)[0] + "-limit")
     # ---- documents from value trees
     trees = []
-    nmeta, nrand = (40, 150) if quick else (600, 4000)
+    nmeta, nrand = (80, 400) if quick else (600, 4000)
     for _ in range(nmeta):
         trees.append(("metadata", gen_metadata(r)))
     for _ in range(nrand):
@@ -641,7 +653,7 @@ def build_lines(r, quick, add, h, findings, res):
     # ---- round trip and truncation on the C side need the serialized text: ask the harness first
     sl = ["ser " + d for _, _, d in ser_docs]
     _, out, _ = engine.run_lines(h, sl)
-    ntr = 0
+    ntr = {}
     for (cls, t, d), o in zip(ser_docs, out):
         if not o.startswith("ser ") or o in ("ser bad", "ser badutf8", "ser fail"):
             continue
@@ -650,16 +662,16 @@ def build_lines(r, quick, add, h, findings, res):
         if not smallfrac:
             add("parse " + hx(text), "roundtrip", expect="parse " + d)
         closed = t[0] in ("obj", "arr", "str")
-        budget = (3 if quick else 40) if cls == "metadata" else (25 if quick else 400)
-        if closed and ntr_ok(ntr, cls, budget, quick) and not smallfrac:
-            ntr += 1
+        budget = (5 if quick else 40) if cls == "metadata" else (60 if quick else 400)
+        if closed and ntr.get(cls, 0) < budget and not smallfrac:
+            ntr[cls] = ntr.get(cls, 0) + 1
             for k in range(0, len(text)):
                 add("parse " + hx(text[:k]), "trunc-" + cls, oracle="reject")
         elif closed and not smallfrac:
             for k in sorted({0, 1, len(text) // 2, len(text) - 2, len(text) - 1} & set(range(len(text)))):
                 add("parse " + hx(text[:k]), "trunc-sample", oracle="reject")
         # single-byte mutations of the text
-        nm = (6 if quick else 60)
+        nm = (10 if quick else 60)
         for _ in range(nm):
             if not text:
                 break
@@ -717,10 +729,6 @@ def build_lines(r, quick, add, h, findings, res):
             b = chr(r.choice([0x7f, 0x80, 0x7ff, 0x800, 0xd7ff, 0xe000, 0xffff, 0x10000, 0x10ffff])).encode()
             b = b[:r.randrange(1, len(b) + 1)] + r.choice([b"", b"a", b"\x80"])
         add("utf8 " + hx(b), "utf8")
-
-
-def ntr_ok(ntr, cls, budget, quick):
-    return ntr < budget
 
 
 def keys_of(t):
